@@ -1,6 +1,7 @@
 /-
 Source tie (DESIGN §14) for the rest of htmltools/_jsx.py (C20): the Lean functions regenerated from the *text* of
-`JSXTagAttrDict.__setitem__ / _update / update / __init__` and `JSXTag.__init__ / extend / append / __copy__`
+`JSXTagAttrDict.__setitem__ / _update / update / __init__`, `JSXTag.__init__ / extend / append / __copy__`, the visitor defined
+inside `JSXTag.tagify`, `_walk_attrs_and_children`, `_lib_dependency` and `JSXTag.tagify`
 (Generated/Src.lean, harness/pytr_c20b.py) compute, for every input, what the component model (Model/Jsx.lean) computes:
 
   JSXTagAttrDict.__setitem__   `JProps.set` under the normalised name (`normAttrName`, through the translated
@@ -20,7 +21,25 @@ Source tie (DESIGN §14) for the rest of htmltools/_jsx.py (C20): the Lean funct
                                original alone — holds by construction; that the copy owns its containers is C20's purity
                                correspondence)
 
+  the visitor                  a tagifiable object that is neither a Tag nor a JSXTag is replaced by what its `tagify()` returns;
+                               the value is copied; a metadata node is appended to the captured list (`visitor_valC20b`)
+  _walk_attrs_and_children     `JNode.walk`: the walked copy `(x.walk d).node` — through children and prop values, tagifiable
+                               objects expanded — and the collected metadata nodes `(x.walk d).metas` in the walk's order
+                               (`C20_collected`, `C20_collected_complete / _sound`); by induction on the nesting, with fuel
+  _lib_dependency              `libDependency`: KeyError for a package `_versions.py` (regenerated table) does not pin, else
+                               the dependency with the pinned version, the package-relative source and the one script (`C20_react`)
+  JSXTag.tagify                `jsxTagify` (`C20_script`): the walk, `_render_react_js` of the walked copy (through the tie of
+                               Props/SrcC20.lean), the JavaScript `jsWrap`, the `<script>` Tag with `scriptAttrs` whose children are
+                               the body, react, react-dom and the collected nodes (`C20_script_shape`, `C20_collected_on_script`)
+
 Scope of the statements, made explicit by their hypotheses:
+  * the walk: `walkOkNC20b` (Lemmas/SrcC20b.lean) — prop names once each and free of `_` (a name with `_`, put there behind the
+    dict's back, is renamed by `copy.copy` and by the assignment of the walk), dict prop values without a key with `_` (the
+    universe does not tell a dict from a JSXTagAttrDict), no tagifiable object whose expansion expands to a TagList.  Two
+    embeddings: `embInNC20b` (a tagifiable object records what its `tagify()` returns) for the input, `embOutNC20b` for the walked
+    copy.  A value has no identity: that the walk assigns into the visitor's *copies* and leaves the argument alone (`C20_pure`)
+    is not part of these statements — it is the purity correspondence of C20;
+  * `tagify`: the walked copy holds no un-expanded tagifiable object (`noTobjNC20b`) and meets the renderer's side conditions;
   * `hkw : kwFreeC20b [self] kw`: no keyword is called `self` (Python would bind it to the parameter of
     `JSXTagAttrDict.__init__` / `update`, or raise "multiple values"; the translation states that binding — `pyKwRestC15b` —,
     the model does not have it);
@@ -35,15 +54,21 @@ Scope of the statements, made explicit by their hypotheses:
     JSXTagAttrDict re-normalises its names; every name `mkProps` stores is free of `_`: `mkProps_no_underscoreC20b`);
   * fuel: any fuel above the call depth.
 
-No loop body is spelled out: the five loops (`_update`, `update`, the allow-list check, and — for the children — the loops of
-`_flatten_recurse` and `_tagchilds_to_tagnodes`) are taken from the regenerated definitions by unification
-(Lemmas/SrcC20b.lean: `kw_loop_kC20b`, `maps_loop_kC20b`, `allowed_loop_kC20b`, `append_loop_kC20b`, `inv_loop_kC20b`).
+No loop body is spelled out: the loops (`_update`, `update`, the allow-list check, for the children the loops of
+`_flatten_recurse` and `_tagchilds_to_tagnodes`, the attribute loop and the two child loops of the walk, the two comprehensions of
+`Tag.__init__`) are taken from the regenerated definitions by unification (Lemmas/SrcC20b.lean: `kw_loop_kC20b`,
+`maps_loop_kC20b`, `allowed_loop_kC20b`, `append_loop_kC20b`, `inv_loop_kC20b`, `props_walk_loopC20b`, `kids_walk_loopC20b`;
+`filter_loop_kC15b`); the one loop that is *evaluated* is `TagAttrDict.update` on the constant dict of `tagify`
+(`script_attrsC20b`).
 Every theorem takes `<fn>_available = true` for the function and for every translated function it calls and is vacuous (first
 alternative) when a function has left the translatable fragment.
 -/
 import HtmlVerif.Generated.Src
 import HtmlVerif.Lemmas.SrcC20b
 import HtmlVerif.Props.SrcC20
+import HtmlVerif.Props.SrcAttrs
+import HtmlVerif.Props.SrcC10b
+import HtmlVerif.Generated.Tables
 
 set_option linter.unusedVariables false
 set_option linter.unusedSimpArgs false
@@ -886,5 +911,220 @@ theorem src_walk_attrs_and_childrenC20b (h : walk_attrs_and_childrenC20b_availab
   have := src_walk_depthC20b h hv hc hs hn G ι (whNC20b x) (.node x) hok (Nat.le_refl _) fuel hf mds
   simp only [embInVC20b, walkResC20b, JVal.walkVal, embOutVC20b] at this
   rw [this, walk_node_indep d .demanded, walk_metas d, walk_metas .demanded]
+
+/-! ### `_lib_dependency` and the constructor call at the end of `tagify` -/
+
+theorem script_attrsC20b (h : TagAttrDict_initC15b_available = true) (hu : TagAttrDict_update_available = true)
+    (hv : normalize_attr_value_available = true) (hn : normalize_attr_name_available = true) (G : Globals) (t : Str) :
+    TagAttrDict_initC15b G (.dict []) (.tuple [.dict [(chars% "type", .str t), (chars% "data_needs_render", .bool true)]]) (.dict [])
+      = .ok (.dict [(chars% "type", .str t), (chars% "data-needs-render", .str [])]) := by
+  first
+  | exact absurd h (by decide)
+  | exact absurd hu (by decide)
+  | exact absurd hv (by decide)
+  | skip
+  all_goals (
+    unfold TagAttrDict_initC15b TagAttrDict_update
+    simp only [pyDictInit0C15b, pyIter_tuple, pyKwRestC15b, List.any_nil, Bool.false_eq_true, if_false, List.filter_nil, ok_bind, pure_eq_ok, truthy,
+      List.isEmpty_nil, Bool.not_true, List.forIn_cons, List.forIn_nil, pyItems_dict, List.map_cons, List.map_nil, pyIter_list,
+      pyUnpack2_tuple, src_normalize_attr_name hn]
+    unfold normalize_attr_value
+    simp [isNone, isBool, pyOr, isInstance, builtinClasses, pyIn, Py.dictGet?, pySetItem, Py.dictSet, pyDictUpdate, normAttrName])
+
+/-- the constructor call at the end of `tagify`: `Tag(name, {"type": t, "data_needs_render": True}, *kids)` for children that are
+    plain nodes (and no dicts) — the new Tag's attributes in assignment order -/
+theorem Tag_init_scriptC20b (h : Tag_initC15b_available = true) (hA : TagAttrDict_initC15b_available = true)
+    (hu : TagAttrDict_update_available = true)
+    (hv : normalize_attr_value_available = true) (hnn : normalize_attr_name_available = true)
+    (hT : TagList_init_available = true) (ht : tagchilds_to_tagnodes_available = true)
+    (hf : util_flatten_available = true) (hr : util_flatten_recurse_available = true) (hn : is_tag_node_available = true)
+    (G : Globals) (fuel : Nat) (nm t : Str) (kids : List PVal)
+    (hpl : ∀ v ∈ kids, plainNodeC20b v = true) (hnd : ∀ v ∈ kids, isInstance v ["dict"] = false) :
+    Tag_initC15b G (fuel + 5) (.obj "Tag" []) (.str nm)
+        (.tuple (.dict [(chars% "type", .str t), (chars% "data_needs_render", .bool true)] :: kids)) (.bool true) (.dict [])
+      = .ok (.obj "Tag" [("name", .str nm), ("add_ws", .bool true),
+          ("attrs", .dict [(chars% "type", .str t), (chars% "data-needs-render", .str [])]),
+          ("children", .obj "TagList" [("data", .list kids)]), ("prev_displayhook", .none)]) := by
+  first
+  | exact absurd h (by decide)
+  | skip
+  all_goals (
+    rw [Tag_initC15b]
+    have hb : isInstance (PVal.bool true) ["bool"] = true := by simp [isInstance, builtinClasses]
+    have hfd : (PVal.dict [(chars% "type", PVal.str t), (chars% "data_needs_render", PVal.bool true)] :: kids).filter
+        (fun v => isInstance v ["dict"]) = [PVal.dict [(chars% "type", PVal.str t), (chars% "data_needs_render", PVal.bool true)]] := by
+      rw [List.filter_cons]
+      simp only [show isInstance (PVal.dict [(chars% "type", PVal.str t), (chars% "data_needs_render", PVal.bool true)]) ["dict"] = true
+        from by simp [isInstance, builtinClasses], if_true]
+      congr 1
+      rw [List.filter_eq_nil_iff]
+      intro v hv'; simp [hnd v hv']
+    have hfk : (PVal.dict [(chars% "type", PVal.str t), (chars% "data_needs_render", PVal.bool true)] :: kids).filter
+        (fun v => !isInstance v ["dict"]) = kids := by
+      rw [List.filter_cons]
+      simp only [show isInstance (PVal.dict [(chars% "type", PVal.str t), (chars% "data_needs_render", PVal.bool true)]) ["dict"] = true
+        from by simp [isInstance, builtinClasses], Bool.not_true, Bool.false_eq_true, if_false]
+      rw [List.filter_eq_self]
+      intro v hv'; simp [hnd v hv']
+    simp only [pySetAttr_objC15b, ok_bind, pure_eq_ok, truthy_bool, hb, Bool.not_true, Bool.false_eq_true, if_false, pyIter_tuple]
+    refine (filter_loop_kC15b (fun v => isInstance v ["dict"]) _ _ _ ?_ _).trans ?_
+    · intro x _ s; cases isInstance x ["dict"] <;> rfl
+    simp only [List.nil_append, hfd, pyIter_list, ok_bind, pyKwRestC15b, List.any_nil, Bool.false_eq_true, if_false, List.filter_nil,
+      pure_eq_ok, script_attrsC20b hA hu hv hnn G t, pySetAttr_objC15b]
+    refine (filter_loop_kC15b (fun v => !isInstance v ["dict"]) _ _ _ ?_ _).trans ?_
+    · intro x _ s; cases isInstance x ["dict"] <;> rfl
+    simp only [List.nil_append, hfk, pyIter_list, ok_bind, TagList_init_plainC20b hT ht hf hr hn G fuel kids hpl, pySetAttr_objC15b]
+    simp [fieldSet])
+
+theorem dictGet_versionsC20b (pkg : Str) (vs : List (Str × Str)) :
+    Py.dictGet? pkg (vs.map fun kv => (kv.1, PVal.str kv.2)) = (alookup pkg vs).map PVal.str := by
+  induction vs with
+  | nil => rfl
+  | cons x t ih =>
+    obtain ⟨k, v⟩ := x
+    simp only [List.map_cons, Py.dictGet?, alookup]
+    split <;> simp_all
+
+/-- the dependency the model's `libDependency` describes (Model/Jsx.lean) -/
+def libDepInfoC20b (pkg v src : Str) : DepInfo :=
+  { name := pkg, version := v, vrank := 0, source := .subdir (some (chars% "htmltools")) (chars% "lib/" ++ pkg) [],
+    script := [[(chars% "src", src)]], stylesheet := [], metas := [], allFiles := false }
+
+/-- `_lib_dependency(pkg, script={"src": src})` as the source has it = `libDependency`: KeyError for a package `_versions.py`
+    (as it is in the source now) does not pin; otherwise `HTMLDependency(name=pkg, version=versions[pkg],
+    source={"package": "htmltools", "subdir": "lib/" + pkg}, script=…)` through the translated `HTMLDependency.__init__`:
+    the dependency the model describes (compared attribute by attribute, `projDepC10b`).
+    `hver`: `packaging` accepts the pinned version string and writes it back as it is. -/
+theorem src_lib_dependencyC20b (h : lib_dependencyC20b_available = true) (hI : HTMLDependency_init_available = true)
+    (h1 : HTMLDependency_validate_dicts_available = true) (h2 : HTMLDependency_validate_dict_available = true)
+    (G : Globals) (pkg src : Str)
+    (hver : ∀ v, alookup pkg Generated.reactVersions = some v → G.mkVersion v = some (versionObjC10b 0 v)) :
+    projDepC10b <$> lib_dependencyC20b G (.str pkg) (.dict [(chars% "src", .str src)])
+      = match alookup pkg Generated.reactVersions with
+        | none => .error .keyError
+        | some v => .ok (embDepObjC10b "HTMLDependency"
+            (.dict [(chars% "package", .str (chars% "htmltools")), (chars% "subdir", .str (chars% "lib/" ++ pkg))])
+            (libDepInfoC20b pkg v src) .none) := by
+  first
+  | exact absurd h (by decide)
+  | skip
+  all_goals (
+    unfold lib_dependencyC20b
+    simp only [pyGetItem, dictGet_versionsC20b, pyAddJ_str, ok_bind, pure_eq_ok]
+    cases hv : alookup pkg Generated.reactVersions with
+    | none => simp
+    | some v =>
+      simp only [Option.map_some, ok_bind, pure_eq_ok]
+      have := src_init hI h1 h2 G "HTMLDependency"
+        { name := pkg, version := v, verOk := true, vrank := 0,
+          source := .dict [(chars% "package", chars% "htmltools"), (chars% "subdir", chars% "lib/" ++ pkg)],
+          script := .one [(chars% "src", src)], stylesheet := .none, metas := .none, allFiles := false }
+        (.str v) (Or.inl ⟨v, rfl, by simpa using hver v hv⟩) .none
+      simp only [SourceV.emb, ItemsV.emb, embKvsC10b, List.map_cons, List.map_nil, HeadV.emb] at this
+      rw [this]
+      simp [depInit, DepArgV.toArg, SourceV.toArg, ItemsV.toArg, checkSource, hasKey, normItems, validateDicts, validateDict,
+        checkKeys, reqScript, reqStylesheet, reqMeta, alookup, HeadV.res, libDepInfoC20b, addRel])
+
+/-! ### JSXTag.tagify -/
+
+theorem lib_dep_objC20b (x : PyM PVal) (d : PVal) (info : DepInfo)
+    (h : projDepC10b <$> x = .ok (embDepObjC10b "HTMLDependency" d info .none)) :
+    ∃ fs, x = .ok (.obj "HTMLDependency" fs) := by
+  cases x with
+  | error e => simp at h
+  | ok r =>
+    cases r with
+    | obj c fs =>
+      simp only [map_ok, projDepC10b, embDepObjC10b, Except.ok.injEq, PVal.obj.injEq] at h
+      exact ⟨fs, by rw [h.1]⟩
+    | _ => simp [projDepC10b, embDepObjC10b] at h
+
+/-- `JSXTag.tagify()` as the source has it = `jsxTagify` (Model/Jsx.lean; `C20_script`): the walk gives the expanded copy and the
+    metadata nodes; `_render_react_js(cp, 2, "\n")` of the copy (its exception is passed on); the JavaScript `jsWrap name
+    component`; and `Tag("script", {"type": "text/javascript", "data_needs_render": True}, HTML("\n" + js + "\n"), react,
+    react-dom, *metadata_nodes)`, whose attributes are `scriptAttrs` and whose children are the script body, the two objects
+    `_lib_dependency` returns — the dependencies `libDependency` describes (`C20_react`), compared attribute by attribute — and the
+    collected nodes in document order (`C20_collected_on_script`).
+    Stated for components whose walked copy holds no un-expanded tagifiable object (`noTobjNC20b`: `tagify()` of a tagifiable
+    object did not return another such object — then the renderer's tie, which is about `embJNode`, applies) and satisfies the
+    renderer's side conditions (`tiedN`); `hv1` / `hv2`: `_versions.py` pins both packages (`C20_react_pinned`); `hver1` /
+    `hver2`: `packaging` accepts the pinned strings and writes them back as they are. -/
+theorem src_jsx_tagifyC20b (h : JSXTag_tagifyC20b_available = true)
+    (hw : walk_attrs_and_childrenC20b_available = true) (hv : JSXTag_tagify_visitorC20b_available = true)
+    (hc : JSXTag_copyC20b_available = true) (hs : JSXTagAttrDict_setitemC20b_available = true)
+    (hn : JSX_normalize_attr_name_available = true)
+    (hr1 : render_react_js_available = true) (hr2 : serialize_attr_available = true) (hr3 : serialize_style_attr_available = true)
+    (hL : lib_dependencyC20b_available = true) (hI : HTMLDependency_init_available = true)
+    (hd1 : HTMLDependency_validate_dicts_available = true) (hd2 : HTMLDependency_validate_dict_available = true)
+    (hT : Tag_initC15b_available = true) (hA : TagAttrDict_initC15b_available = true) (hu : TagAttrDict_update_available = true)
+    (hav : normalize_attr_value_available = true) (han : normalize_attr_name_available = true)
+    (hTL : TagList_init_available = true) (ht : tagchilds_to_tagnodes_available = true)
+    (hf : util_flatten_available = true) (hfr : util_flatten_recurse_available = true) (hit : is_tag_node_available = true)
+    (G : Globals) (ι : Str → Option Int) (hι : IntTexts ι) (name : Str) (ps : JProps) (ks : JNodes)
+    (hok : walkOkNC20b (.comp name ps ks) = true)
+    (hclean : noTobjNC20b ((JNode.comp name ps ks).walk .demanded).node = true)
+    (htied : tiedN ((JNode.comp name ps ks).walk .demanded).node = true)
+    (v1 v2 : Str) (hv1 : alookup (chars% "react") Generated.reactVersions = some v1)
+    (hv2 : alookup (chars% "react-dom") Generated.reactVersions = some v2)
+    (hver1 : G.mkVersion v1 = some (versionObjC10b 0 v1)) (hver2 : G.mkVersion v2 = some (versionObjC10b 0 v2))
+    (fuel : Nat) (hf1 : whNC20b (.comp name ps ks) + 1 ≤ fuel) (hf2 : hN ((JNode.comp name ps ks).walk .demanded).node ≤ fuel)
+    (hf3 : 5 ≤ fuel) :
+    ∃ r rd,
+      projDepC10b r = embDepObjC10b "HTMLDependency"
+          (.dict [(chars% "package", .str (chars% "htmltools")), (chars% "subdir", .str (chars% "lib/" ++ chars% "react"))])
+          (libDepInfoC20b (chars% "react") v1 (chars% "react.production.min.js")) .none ∧
+      projDepC10b rd = embDepObjC10b "HTMLDependency"
+          (.dict [(chars% "package", .str (chars% "htmltools")), (chars% "subdir", .str (chars% "lib/" ++ chars% "react-dom"))])
+          (libDepInfoC20b (chars% "react-dom") v2 (chars% "react-dom.production.min.js")) .none ∧
+      JSXTag_tagifyC20b G (fuel + 1) (embInNC20b ι (.comp name ps ks))
+        = match ((JNode.comp name ps ks).walk .demanded).node.renderJs 2 ['\n'] with
+          | .error e => .error (embErr e)
+          | .ok component =>
+            .ok (scriptObjC20b (jsWrap name component) r rd ((JNode.comp name ps ks).metasIn.map (embMetaC20b ι))) := by
+  first
+  | exact absurd h (by decide)
+  | skip
+  all_goals (
+    have hl1 := src_lib_dependencyC20b hL hI hd1 hd2 G (chars% "react") (chars% "react.production.min.js")
+      (fun v hv' => by rw [hv1] at hv'; cases hv'; exact hver1)
+    have hl2 := src_lib_dependencyC20b hL hI hd1 hd2 G (chars% "react-dom") (chars% "react-dom.production.min.js")
+      (fun v hv' => by rw [hv2] at hv'; cases hv'; exact hver2)
+    rw [hv1] at hl1
+    rw [hv2] at hl2
+    obtain ⟨fs1, e1⟩ := lib_dep_objC20b _ _ _ hl1
+    obtain ⟨fs2, e2⟩ := lib_dep_objC20b _ _ _ hl2
+    refine ⟨.obj "HTMLDependency" fs1, .obj "HTMLDependency" fs2, by simpa [e1] using hl1, by simpa [e2] using hl2, ?_⟩
+    rw [JSXTag_tagifyC20b]
+    have hwalk := src_walk_attrs_and_childrenC20b hw hv hc hs hn G ι (.comp name ps ks) hok fuel hf1 [] .demanded
+    have hrender := src_render_react_js hr1 hr2 hr3 G ι hι _ htied fuel hf2 2 ['\n']
+    rw [← embOut_eq_embJNC20b ι _ hclean] at hrender
+    simp only [ok_bind, pure_eq_ok, hwalk, pyUnpack2_tuple, List.nil_append]
+    have h2 : (PVal.int 2) = PVal.int ((2 : Nat) : Int) := rfl
+    rw [h2, hrender]
+    cases hrj : ((JNode.comp name ps ks).walk .demanded).node.renderJs 2 ['\n'] with
+    | error e => simp [embRes]
+    | ok component =>
+      have hname : pyGetAttr (embInNC20b ι (.comp name ps ks)) "name" = .ok (.str name) := by
+        simp [embInNC20b, pyGetAttr, fieldGet?]
+      have hjoin := pyJoinJ_strs ['\n'] (jsWrapPartsC20b name component)
+      simp only [jsWrapPartsC20b, List.map_cons, List.map_nil] at hjoin
+      simp only [embRes, ok_bind, hname, pyStrJ_str, pyConcat3, pure_eq_ok, char10C20b, char39C20b, char34C20b, hjoin,
+        pyAddJ_str, mkHTMLC20b, jsxText?, mkHTML, pyStr_str, e1, e2, pyIter_list]
+      obtain ⟨f', rfl⟩ : ∃ f', fuel = f' + 5 := ⟨fuel - 5, by omega⟩
+      simp only [List.cons_append, List.nil_append]
+      have hkid : ∀ (js : Str) (v : PVal), v ∈ PVal.html js :: PVal.obj "HTMLDependency" fs1 :: PVal.obj "HTMLDependency" fs2
+          :: List.map (embMetaC20b ι) (JNode.walk Discipline.demanded (JNode.comp name ps ks)).metas →
+          plainNodeC20b v = true ∧ isInstance v ["dict"] = false := by
+        intro js v hv'
+        simp only [List.mem_cons, List.mem_map] at hv'
+        rcases hv' with rfl | rfl | rfl | ⟨m, _, rfl⟩
+        · simp [plainNodeC20b, isInstance, builtinClasses, isNone]
+        · simp [plainNodeC20b, isInstance, classBases, isNone]
+        · simp [plainNodeC20b, isInstance, classBases, isNone]
+        · cases m <;> simp [embMetaC20b, embInNC20b, plainNodeC20b, isInstance, classBases, isNone]
+      refine (Tag_init_scriptC20b hT hA hu hav han hTL ht hf hfr hit G f' _ _ _ (fun v hv' => (hkid _ v hv').1)
+        (fun v hv' => (hkid _ v hv').2)).trans ?_
+      simp only [scriptObjC20b, jsWrap_partsC20b, jsWrapPartsC20b, walk_metas, List.singleton_append, List.cons_append,
+        List.nil_append])
 
 end HtmlVerif.SrcTie
